@@ -11,7 +11,8 @@ Definition c23_one (c : c23case) : N * (bool * bool) :=
   match c with
   | WhyNotCase nrel P0 base0 der0 path targets =>
       let P := norm_program P0 in
-      let base := norm_db base0 in
+      let base_raw := norm_db base0 in
+      let base := eff_base P base_raw in
       let der := option_map norm_db der0 in
       let M := ref_model nrel P base in
       if negb (ref_ok nrel P M) then (0, (false, true))
@@ -25,9 +26,10 @@ Definition c23_one (c : c23case) : N * (bool * bool) :=
             map (fun x : tuple * bool * report =>
               let t := norm_tuple (fst (fst x)) in
               let rep := snd x in
-              let cls := if negb bbu then 2
+              let cls := if stored_and_derived P base_raw then 3
+                         else if negb bbu then 2
                          else if forallb (clause_det M None t) cs then 0 else 1 in
-              let corr := if N.eqb path 1 then report_eqb (explain P base der r t) rep else true in
+              let corr := if N.eqb path 1 then report_eqb (explain P base_raw der r t) rep else true in
               (cls, why_not_truthful P M r t rep, corr)) (snd rt)) targets in
         let '(k, ok) := fold_items (map fst results) in
         (k, (cok && forallb snd results, ok))
